@@ -236,6 +236,11 @@ func CreateIDToken(ctx context.Context, issuer string, request IDTokenRequest, v
 		}
 		claims.SetUserInfo(userInfo)
 	}
+	// SetUserInfo takes the subject from the userinfo; a storage that leaves it empty
+	// (SetUserinfoFromScopes is documented to be an empty implementation) must not erase the subject
+	if claims.Subject == "" {
+		claims.Subject = request.GetSubject()
+	}
 	if code != "" {
 		codeHash, err := oidc.ClaimHash(code, signingKey.SignatureAlgorithm())
 		if err != nil {
